@@ -55,6 +55,7 @@ def inputs(tmp):
         'Hex #aB SQUARE q',
         'circle  a\tsquare b',
         'wire badwire circle a',
+        'circle badmodel square q',
     ]
     out = [{'kind': 'str', 'text': t} for t in texts]
     files = {
@@ -72,12 +73,15 @@ def inputs(tmp):
         'main_imp_syntax.m': 'import "lib_syntax.m"\ncircle a\n',
         'main_imp_missing.m': 'import "nofile.m"\ncircle a\n',
         'user_of_bad.m': 'import "main_imp_syntax.m"\ncircle u\n',
+        'mpfail.m': 'circle badmodel circle mq\n',
+        'main_imp_mpfail.m': 'import "mpfail.m"\ncircle a ref r shape mq\n',
+        'user_of_mpfail.m': 'import "main_imp_mpfail.m"\nimport "lib.m"\ncircle u ref r shape lc\n',
     }
     for nm, t in files.items():
         with open(os.path.join(tmp, nm), 'w') as f:
             f.write(t)
     for nm in ('main_ok.m', 'main_bad.m', 'main_imp_bad.m', 'cyc_a.m', 'lib.m', 'procfail.m', 'main_imp_procfail.m', 'numfail.m', 'main_imp_syntax.m',
-               'main_imp_missing.m', 'user_of_bad.m'):
+               'main_imp_missing.m', 'user_of_bad.m', 'mpfail.m', 'main_imp_mpfail.m', 'user_of_mpfail.m'):
         out.append({'kind': 'file', 'path': os.path.join(tmp, nm)})
     return out
 
